@@ -299,7 +299,7 @@ def julia_eval(expr: str, env: dict) -> float:
 
 
 def run_jl(code: str, calls: list[tuple[float, list[float], list[float]]]) -> list[list[float]]:
-    lines = [ln for ln in code.split("\n") if ln.strip()]
+    lines = logical_lines(code)
     m = re.match(r"^function model\(time, variables((?:, [A-Za-z_][A-Za-z_0-9]*)*)\)$", lines[0].strip())
     if not m or lines[-1].strip() != "end":
         raise NotWellFormed("julia: function header / end not in the subset")
@@ -342,6 +342,22 @@ def run_jl(code: str, calls: list[tuple[float, list[float], list[float]]]) -> li
         if ret is None:
             raise NotWellFormed("julia: no return statement")
         out.append([float(v) for v in ret])
+    return out
+
+
+def logical_lines(code: str) -> list[str]:
+    """Join physical lines while parentheses are unbalanced (Julia continues an incomplete expression)."""
+    out: list[str] = []
+    cur = ""
+    for ln in code.split("\n"):
+        if not ln.strip():
+            continue
+        cur = ln if not cur else cur + " " + ln.strip()
+        if cur.count("(") <= cur.count(")"):
+            out.append(cur)
+            cur = ""
+    if cur:
+        out.append(cur)
     return out
 
 
